@@ -64,7 +64,7 @@ def wire_check(prop, tier, seed, replay=None):
         table = export_table('Wire', work)
         ncells = json.load(open(table))['ncells']
         binp = C.build_harness('wirefam', work)
-        env = dict(VERIF_TABLE=table, VERIF_SEED=str(seed), VERIF_VARIANTS='1' if tier == 'quick' else '3',
+        env = dict(VERIF_TABLE=table, VERIF_SEED=str(seed), VERIF_VARIANTS='4',
                    VERIF_RANDOM='150' if tier == 'quick' else '3000', VERIF_BATCHES='120' if tier == 'quick' else '2500')
         if replay:
             env['VERIF_REPLAY_INPUT'] = json.load(open(replay))['input']
@@ -249,7 +249,7 @@ def emit_check(prop, tier, seed, replay=None):
         nwire = json.load(open(wt))['ncells']
         bw = C.build_harness('wirefam', work)
         ww = os.path.join(work, 'w'); os.makedirs(ww)
-        rw, cw = run_shards(bw, 'TestWire', ww, C.NCPU, dict(VERIF_TABLE=wt, VERIF_SEED=str(seed), VERIF_VARIANTS='1' if tier == 'quick' else '3',
+        rw, cw = run_shards(bw, 'TestWire', ww, C.NCPU, dict(VERIF_TABLE=wt, VERIF_SEED=str(seed), VERIF_VARIANTS='4',
                                                           VERIF_RANDOM='100' if tier == 'quick' else '2000', VERIF_BATCHES='100' if tier == 'quick' else '2000'))
         et = os.path.join(work, 'emit.json')
         rc, txt = C.run_tlc(work, 'Emit', 'SPECIFICATION Spec\n', workers=1, timeout=900, env={'OUT': et}, cfgname='emit_export.cfg')
